@@ -24,7 +24,7 @@ PROBES = ("probe_xcp",)
 
 SCHEDS = [{"sched": "free"}, {"sched": "pct", "sched_d": 2}, {"sched": "role", "role_order": "walker,dispatcher,copy,main,worker"},
           {"sched": "role", "role_order": "worker,dispatcher,walker,copy,main"}, {"sched": "role", "role_order": "worker,walker,dispatcher,copy,main"},
-          {"sched": "lifo"}]
+          {"sched": "lifo"}, {"sched": "role", "role_order": "main,copy,dispatcher,walker,worker"}]
 
 
 def F(p, size, seed, **kw):
